@@ -343,5 +343,27 @@ def switch_shapes():
         yield Shape(("switch", fk, cl), desc, build)
 
 
+def comment_shapes():
+    """Comments: on a field, an array, a case, and next to a hardcoded string."""
+    def on_field(nm):
+        return [], [Elem("field", {"name": nm.name("f"), "type": "char"}, comment=nm.text("cmt"))], []
+
+    def on_array_with_length(nm):
+        return [], [Elem("array", {"name": nm.name("a"), "type": "char", "length": nm.digits("L")}, comment=nm.text("cmt"))], []
+
+    def on_case(nm):
+        k = nm.name("k")
+        return [Elem("field", {"name": k, "type": "char"})], \
+               [Elem("switch", {"field": k}, [Elem("case", {"value": nm.digits("cv")}, [Elem("field", {"name": nm.name("x"), "type": "char"})],
+                                                   comment=nm.text("cmt"))])], []
+
+    def on_hardcoded(nm):
+        return [], [Elem("field", {"name": nm.name("f"), "type": "string"}, text=nm.text("v"), comment=nm.text("cmt"))], []
+    yield Shape(("comment", "field"), dict(tag="comment"), on_field)
+    yield Shape(("comment", "array"), dict(tag="comment"), on_array_with_length)
+    yield Shape(("comment", "case"), dict(tag="comment"), on_case)
+    yield Shape(("comment", "hardcoded"), dict(tag="comment"), on_hardcoded)
+
+
 def empty_object_shape():
     return Shape(("empty-object",), dict(tag="empty"), lambda nm: ([], [], []))
